@@ -26,24 +26,47 @@
    query returns the last status.                                                                                  *)
 EXTENDS Integers, Sequences, FiniteSets, TLC
 
-CONSTANTS Readers, MaxVer, MaxQueries,
-          ReturnChecked, RestatAfterLoad
+CONSTANTS
+  \* @type: Set(Str);
+  Readers,
+  \* @type: Int;
+  MaxVer,
+  \* @type: Int;
+  MaxQueries,
+  \* @type: Bool;
+  ReturnChecked,
+  \* @type: Bool;
+  RestatAfterLoad
 
 None == [data |-> -1, stamp |-> -1]
 
-VARIABLES ver,        \* content (and stamp) of the file
-          entry,      \* cache[file] or None
-          pc,         \* [reader -> "idle" | "checked" | "loaded"]
-          seen,       \* [reader -> the entry Check looked at]
-          stale,      \* [reader -> what Check decided]
-          stamp,      \* [reader -> the stamp Check saw]
-          data,       \* [reader -> what Load parsed]
-          began,      \* [reader -> version of the file when the query looked at it]
-          ret,        \* [reader -> <<began, returned>> of its last finished query]
-          nq,         \* [reader -> queries finished]
-          upc,        \* the manual update: "idle" | "wrote"
-          recording,  \* the run is still being recorded by its agent
-          panicked
+VARIABLES
+  \* @type: Int;
+  ver,
+  \* @type: { data: Int, stamp: Int };
+  entry,
+  \* @type: Str -> Str;
+  pc,
+  \* @type: Str -> { data: Int, stamp: Int };
+  seen,
+  \* @type: Str -> Bool;
+  stale,
+  \* @type: Str -> Int;
+  stamp,
+  \* @type: Str -> Int;
+  data,
+  \* @type: Str -> Int;
+  began,
+  \* @type: Str -> <<Int, Int>>;
+  ret,
+  \* @type: Str -> Int;
+  nq,
+  \* @type: Str;
+  upc,
+  \* @type: Bool;
+  recording,
+  \* @type: Bool;
+  panicked
 
 cvars == <<ver, entry, pc, seen, stale, stamp, data, began, ret, nq, upc, recording, panicked>>
 
